@@ -583,7 +583,7 @@ def check(run):
         if p["status"] == "ok":
             for r in p["results"]:
                 distinct.add((r["name"], r["arg"], r["size"], r["ret"], r["buf"]))
-    recog = {k: v["recognised"] for k, v in js["entries"].items()}
+    recog = {k: bool(v["recognised"] and k in TABLE) for k, v in js["entries"].items()}      # body turned into a decision tree of the table class
     run.coverage.update({
         "evaluations": stats["evaluations"], "distinct_nontrivial": len(distinct),
         "rule": "process states constructed by a root harness (ids pairwise distinct / with and without passwd and group entries / >= 2^31; setsid and own process group; deep, long, renamed, "
@@ -594,7 +594,7 @@ def check(run):
         "distribution": {"states": len(lines), "corpus_cases": len(corp), "state_dimensions": dist, "compared_per_source": stats["compared"], "no_model_opinion": stats["unmodelled"],
                          "model_lines": nmodel, "violations_found": nv,
                          "proved_table": TABLE + ["env_all", "cmdline"], "own_model_with_parse_theorems": ["cgroup", "rpname"], "correspondence_only": CORR_ONLY, "neither": NEITHER,
-                         "translator_recognised": recog, "coqchk": coqchk},
+                         "translated_to_table_tree": recog, "coqchk": coqchk},
         "traces_validated_against_impl": sum(stats["compared"].values()),
     })
     return run.finish(level="proof",
